@@ -367,6 +367,16 @@ class IkeSa(object):
                            ''.format(self.spi_i.hex(), self.spi_r.hex()))
             return None
 
+        # once there are keys, anything that is not protected with them is ignored. The only exception is a
+        # retransmitted IKE_SA_INIT request, which is answered with the stored IKE_SA_INIT response
+        if self.peer_crypto is not None and not message.is_authenticated:
+            if (message.exchange_type == Message.Exchange.IKE_SA_INIT and message.is_request
+                    and self.state == IkeSa.State.INIT_RES_SENT and message.message_id == self.peer_msg_id - 1):
+                self.log_warning('Retransmission of IKE_SA_INIT request detected. Sending last sent message')
+                return self.last_sent_response_data
+            self.log_error('Received an unprotected message for an IKE_SA that has keys. Ignoring')
+            return None
+
         # receiving any kind of message from the peer resets the DPD timer
         self.start_dpd_at = time.time() + self.configuration.dpd
         if message.is_request:
